@@ -57,6 +57,11 @@ var c13Pool = []string{
 	tkID(true, "oidc", "üser☃"),
 	tkID(true, "bearer", "alice\x00"),
 	tkID(true, "bearer", "anonymous"),
+	// domain‖principal concatenations that coincide but split differently
+	tkID(true, "jwt", "2alice"),
+	tkID(true, "jwt2", "alice"),
+	tkID(true, "", "mtls"),
+	tkID(true, "mtls", ""),
 }
 
 func c13Gen(g *Gen) {
@@ -107,7 +112,7 @@ func c13Gen(g *Gen) {
 			cont("i1", J, "$j0", "$k0", "-")
 			// a cursor for J naming I's call (only a key holder could mint it) + I's call token:
 			// the call token is for I, and the cache entry is I's
-			if same || !strings.EqualFold(identKeyOf(I), identKeyOf(J)) {
+			if same || !strings.EqualFold(tkSpecIdentKey(I), tkSpecIdentKey(J)) {
 				lines = append(lines, fmt.Sprintf("mint cursor fj i0 %s age=0 callid=@c0 method=%s skind=%s count=1 limit=9", J, m, map[bool]string{true: "P", false: "E"}[strings.Contains(m, "p")]))
 				cont("i0", J, "$fj", "$k0", "-")
 				cont("i0", J, "$fj", "-", "-")
@@ -155,13 +160,4 @@ func c13Gen(g *Gen) {
 			g.Case(lines...)
 		}
 	}
-}
-
-// identKeyOf restates callStateIdentity for the generator (to steer, never to judge).
-func identKeyOf(id string) string {
-	a := tkAuthOf(id)
-	if !a.Authenticated {
-		return "\x00anonymous"
-	}
-	return a.Domain + "\x00" + a.Principal
 }
